@@ -84,7 +84,10 @@ if __name__ == "__main__":
         tier = sys.argv[sys.argv.index("--tier") + 1] if "--tier" in sys.argv else "quick"
         root = os.path.join(V, "seeded")
         rows = []
+        only = sys.argv[sys.argv.index("--only") + 1].split(",") if "--only" in sys.argv else None
         for name in sorted(os.listdir(root)):
+            if only and not any(o in name for o in only):
+                continue
             sd = os.path.join(root, name)
             if not os.path.exists(os.path.join(sd, "meta.json")):
                 continue
@@ -92,4 +95,4 @@ if __name__ == "__main__":
             for pid, r in res.items() if isinstance(res, dict) and "error" not in res else []:
                 rows.append((name, pid, "CAUGHT" if r["caught"] else ("no-check" if r["rc"] is None else "missed"), "input" if r["with_input"] else "-", r["wall"]))
                 print("%-28s %s %-7s %-6s %6.1fs" % rows[-1], flush=True)
-        json.dump(rows, open(os.path.join(V, "seeded", "RESULTS.json"), "w"), indent=1)
+        json.dump(rows, open(os.path.join(V, "seeded", "RESULTS%s.json" % ("-partial" if only else "")), "w"), indent=1)
